@@ -302,6 +302,71 @@ def _replay(case):
 
 REPLAY = {"config": _replay}
 
+def explore_chain(case):
+    """long chains: the matrix of X1 * X2 * ... * Xn equals the product of the factors' matrices for every prefix (a defect that is
+    below round-off for one product but compounds shows only here).  One deterministic chain per group and starting offset."""
+    name, tier, seed, start = case["config"], case["tier"], case["seed"], case["start"]
+    res = core.Result()
+    n_len = 200 if tier == "thorough" else 64
+    B = lib.built(name)
+    L = lib.layout(B.G)
+    for op in ("product", "to_Matrix"):
+        B.get(op)
+    if B.status["product"] != "ok" or B.status["to_Matrix"] != "ok":
+        res.count("evaluations")
+        res.count("not_offered")
+        return res
+    pool = [e for e in alpha.elements(L, seed, small=True) if gutil.elem_excluded(L, e["p"]) is None and maxabs(e["p"]) < 50]
+    pool = alpha.reduced(pool, 24)
+    acc = pool[start % len(pool)]["p"]
+    Mref = _alpha(B, acc)
+    used = 1
+    k = start
+    skipped = 0
+    while used < n_len and skipped < 4 * n_len:
+        k += 1
+        q = pool[(k * 7 + start) % len(pool)]["p"]
+        if gutil.product_excluded(L, acc, q):
+            skipped += 1
+            continue
+        Mq = _alpha(B, q)
+        nxt = B.vec("product", acc, q)
+        Mn = Mref @ Mq
+        if maxabs(Mn) > 1e6 or gutil.elem_excluded(L, nxt) is not None:
+            skipped += 1
+            continue
+        res.count("evaluations")
+        res.count("transitions")
+        res.count("traces_validated_against_impl")
+        res.nontrivial.add(hash((name, start, used)))
+        ok, err = close(_alpha(B, nxt), Mn, scale=1 + maxabs(Mn))
+        if not ok:
+            res.fail(site=name + ".product", clause="matrix_of_product_is_product_of_matrices", cls="chain", detail=dict(chain_length=used + 1, start=start, err=err, element=nxt), sub="chain", case=case)
+            break
+        acc, Mref = nxt, _alpha(B, nxt)  # re-anchor the reference on the (just validated) element: round-off does not accumulate in the oracle
+        used += 1
+    res.counters["max_depth"] = used
+    res.count("states", used)
+    res.outcomes.add(hash(np.round(Mref, 6).tobytes()))
+    res.samples.append(dict(config=name, chain_length=used, skipped=skipped))
+    return res
+
+
+class _Chain:
+    chunks = 1
+
+    def cases(self, tier, seed):
+        names = list(gutil.BASE) + ["SO3Quat*SE2", "SE3Quat*SO3Mrp"]
+        return [dict(sub="chain", config=n, tier=tier, seed=seed, start=s) for n in names for s in ((0, 5) if tier != "thorough" else (0, 5, 11, 17))]
+
+    def run(self, case):
+        return explore_chain(case)
+
+
+SUBCHECKS["chain"] = _Chain()
+REPLAY["chain"] = lambda c: explore_chain(c).fails
+
+
 # results must not depend on which library calls were made earlier in the process (see mc/order.py)
 from .. import order as _order  # noqa: E402
 
